@@ -1298,11 +1298,12 @@ static Regs* step(int nodeIdx, const Node& n, const Node& pn, int p, const Regs&
   const OpRec& o = n.h.back();
   std::vector<Route> routes = routesOf(o, p, pre);
   Regs* result = nullptr;
+  bool primaryOk = true;
   for (size_t k = 0; k < routes.size(); k++)
   {
     if (!enter(nodeIdx, p, (int)k, 0, 0, o.op + "/" + routes[k].name))
     {
-      if (k == 0) return nullptr;
+      if (k == 0) primaryOk = false;
       continue;
     }
     bool iso = !g_isolated && ISOLATE.count(o.op + "|" + PROFNAME[p] + "|" + routes[k].name) > 0;
@@ -1314,8 +1315,9 @@ static Regs* step(int nodeIdx, const Node& n, const Node& pn, int p, const Regs&
     }
     else
       ok = evalRoute(routes[k], n, pn, p, pre, k == 0 ? &result : nullptr);
-    if (!ok && k == 0) return nullptr;   // the branch is cut for this storage
+    if (!ok && k == 0) primaryOk = false;   // the branch is cut for this storage (the other routes are still evaluated)
   }
+  if (!primaryOk) { delete result; return nullptr; }
   return result;
 }
 
